@@ -89,7 +89,7 @@ def main(a):
         # demonstrations may name their author's worktree: point them at this scratch worktree
         import re as _re
         txt = open(demo, encoding='utf-8').read()
-        txt2 = _re.sub(r'/tmp/s[a-e]-C[0-9]+', wt, txt)
+        txt2 = _re.sub(r'/tmp/s[a-f]-C[0-9]+', wt, txt)
         # ... or locate the tree relative to their own file (<tree>/_out/demo.py): run a copy from <wt>/_out/
         os.makedirs(os.path.join(wt, '_out'), exist_ok=True)
         demo_run = os.path.join(wt, '_out', os.path.basename(demo))
